@@ -444,6 +444,108 @@ def alias_self_attributes(tree):
     return tree
 
 
+def hoist_call_args(tree):
+    """f(g(x), y)  ->  _a = g(x); f(_a, y)   for expression / assignment / return statements whose value is a call with a call as its
+    FIRST positional argument (evaluated first anyway, so the order of evaluation is unchanged)"""
+    tree = copy.deepcopy(tree)
+    counter = [0]
+    for owner, field, body in list(_walk_bodies(tree)):
+        if isinstance(owner, (ast.Module, ast.ClassDef)):
+            continue
+        out = []
+        for st in body:
+            v = st.value if isinstance(st, (ast.Expr, ast.Assign, ast.Return)) else None
+            if isinstance(v, ast.Call) and v.args and isinstance(v.args[0], ast.Call) and isinstance(v.func, (ast.Name, ast.Attribute)) \
+                    and _pure_path(v.func if isinstance(v.func, ast.Name) else v.func.value) \
+                    and not any(isinstance(n, (ast.Starred, ast.Await, ast.Yield, ast.NamedExpr, ast.Lambda, ast.GeneratorExp)) for n in ast.walk(v.args[0])):
+                nm = _fresh("_arg", counter)
+                out.append(ast.Assign(targets=[ast.Name(id=nm, ctx=ast.Store())], value=v.args[0]))
+                v.args[0] = ast.Name(id=nm, ctx=ast.Load())
+            out.append(st)
+        setattr(owner, field, out)
+    ast.fix_missing_locations(tree)
+    return tree
+
+
+def unpack_to_index(tree):
+    """a, b = t   ->   _t = t; a = _t[0]; b = _t[1]      (targets are plain names, t is not a literal tuple)"""
+    tree = copy.deepcopy(tree)
+    counter = [0]
+    for owner, field, body in list(_walk_bodies(tree)):
+        if isinstance(owner, (ast.Module, ast.ClassDef)):
+            continue
+        out = []
+        for st in body:
+            if isinstance(st, ast.Assign) and len(st.targets) == 1 and isinstance(st.targets[0], ast.Tuple) and all(isinstance(e, ast.Name) for e in st.targets[0].elts) \
+                    and not isinstance(st.value, (ast.Tuple, ast.List)):
+                nm = _fresh("_tup", counter)
+                out.append(ast.Assign(targets=[ast.Name(id=nm, ctx=ast.Store())], value=st.value))
+                for i, e in enumerate(st.targets[0].elts):
+                    out.append(ast.Assign(targets=[ast.Name(id=e.id, ctx=ast.Store())],
+                                          value=ast.Subscript(value=ast.Name(id=nm, ctx=ast.Load()), slice=ast.Constant(value=i), ctx=ast.Load())))
+            else:
+                out.append(st)
+        setattr(owner, field, out)
+    ast.fix_missing_locations(tree)
+    return tree
+
+
+def return_via_temp(tree):
+    """return E  ->  _ret = E; return _ret      (E is not a bare name / constant)"""
+    tree = copy.deepcopy(tree)
+    counter = [0]
+    for owner, field, body in list(_walk_bodies(tree)):
+        out = []
+        for st in body:
+            if isinstance(st, ast.Return) and st.value is not None and not isinstance(st.value, (ast.Name, ast.Constant)):
+                nm = _fresh("_ret", counter)
+                out.append(ast.Assign(targets=[ast.Name(id=nm, ctx=ast.Store())], value=st.value))
+                out.append(ast.Return(value=ast.Name(id=nm, ctx=ast.Load())))
+            else:
+                out.append(st)
+        setattr(owner, field, out)
+    ast.fix_missing_locations(tree)
+    return tree
+
+
+def inline_return_temp(tree):
+    """x = E; return x  ->  return E      (x is a plain name assigned in the statement right before the return)"""
+    tree = copy.deepcopy(tree)
+    for owner, field, body in list(_walk_bodies(tree)):
+        out = []
+        i = 0
+        while i < len(body):
+            st = body[i]
+            nxt = body[i + 1] if i + 1 < len(body) else None
+            if isinstance(st, ast.Assign) and len(st.targets) == 1 and isinstance(st.targets[0], ast.Name) and isinstance(nxt, ast.Return) \
+                    and isinstance(nxt.value, ast.Name) and nxt.value.id == st.targets[0].id:
+                out.append(ast.Return(value=st.value))
+                i += 2
+            else:
+                out.append(st)
+                i += 1
+        setattr(owner, field, out)
+    ast.fix_missing_locations(tree)
+    return tree
+
+
+def positional_to_keyword(tree):
+    """f(a, b)  ->  f(a, y=b)   for calls of functions defined at module level in the same module (last positional argument passed by name)"""
+    tree = copy.deepcopy(tree)
+    defs = {n.name: n for n in tree.body if isinstance(n, ast.FunctionDef) and not n.args.vararg and not n.args.posonlyargs}
+    for n in ast.walk(tree):
+        if isinstance(n, ast.Call) and isinstance(n.func, ast.Name) and n.func.id in defs and len(n.args) >= 2 \
+                and not any(isinstance(a, ast.Starred) for a in n.args) and not any(k.arg is None for k in n.keywords):
+            params = [a.arg for a in defs[n.func.id].args.args]
+            if len(n.args) <= len(params):
+                k = len(n.args) - 1
+                if params[k] not in {kw.arg for kw in n.keywords}:
+                    n.keywords.insert(0, ast.keyword(arg=params[k], value=n.args[k]))
+                    n.args = n.args[:k]
+    ast.fix_missing_locations(tree)
+    return tree
+
+
 MECHANICAL = [
     ("list comprehensions assigned to a local rewritten as append loops", comp_to_loop),
     ("every `if` condition evaluated into a temporary first", cond_to_temp),
@@ -461,4 +563,9 @@ MECHANICAL = [
     ("`if a and b:` split into nested ifs", split_and_ifs),
     ("operands of side-effect-free comparisons swapped", flip_comparisons),
     ("read-only `self.<attr>` chains replaced by a local alias bound at the top of the method", alias_self_attributes),
+    ("a call passed as first argument hoisted into a temporary", hoist_call_args),
+    ("tuple unpacking rewritten as indexing of a temporary", unpack_to_index),
+    ("every `return <expr>` routed through a temporary", return_via_temp),
+    ("`x = E; return x` rewritten as `return E`", inline_return_temp),
+    ("last positional argument of calls to same-module functions passed by keyword", positional_to_keyword),
 ]
